@@ -45,7 +45,7 @@ func (o SOp) String() string {
 		if e.Pad {
 			addr = "k+"
 		}
-		if o.Kind == "prop" {
+		if o.Kind == "prop" || o.Kind == "legacy-prop" {
 			fmt.Fprintf(&sb, " %c%s(slot=%d,r%d,d%d)", 'A'+e.Key, addr, e.Slot, e.Root, e.Dom)
 		} else {
 			fmt.Fprintf(&sb, " %c%s(%d->%d,r%d,d%d)", 'A'+e.Key, addr, e.S, e.T, e.Root, e.Dom)
@@ -252,6 +252,27 @@ func (w *SigWorker) Continue(tr *Trace, path []SOp, verifyLast bool) error {
 		case "restart":
 			if err := w.Rig.Restart(); err != nil {
 				return err
+			}
+			tr.Obs = append(tr.Obs, "ok")
+		case "legacy-att", "legacy-prop":
+			// The key's history starts in an older release: the store holds a record in the old (gob) format, which
+			// stands for a signature released back then.
+			e := op.Ents[0]
+			a := accts[e.Key]
+			var legacyRoot [32]byte
+			for j := range legacyRoot {
+				legacyRoot[j] = 0xee
+			}
+			if op.Kind == "legacy-att" {
+				if err := w.Rig.Rules.VerifRawPut(w.Rig.Ctx, append(a.PubBytes(), 0x02), gobBytes(legacyAtt{int64(e.S), int64(e.T)})); err != nil {
+					return err
+				}
+				tr.Released = append(tr.Released, Released{Key: e.Key, S: e.S, T: e.T, Root: legacyRoot, Step: step})
+			} else {
+				if err := w.Rig.Rules.VerifRawPut(w.Rig.Ctx, append(a.PubBytes(), 0x03), gobBytes(legacyProp{int64(e.Slot)})); err != nil {
+					return err
+				}
+				tr.Released = append(tr.Released, Released{Key: e.Key, Prop: true, Slot: e.Slot, Root: legacyRoot, Step: step})
 			}
 			tr.Obs = append(tr.Obs, "ok")
 		case "att":
